@@ -1,7 +1,9 @@
 //! Shared by gen_c01 / gen_c02 (included with `#[path]`): case generation for the three max-flow
 //! solvers and in-process execution of the REAL toolbox_rs code.
 //!
-//! Case format (see lean/Tbx/Drv/FlowCommon.lean):  `st s t` / `e u v cap` lines.
+//! Case format (see lean/Tbx/Drv/FlowCommon.lean):  `st s t` / `e u v cap` lines; with a `gen k` line the
+//! numbers on the `e` lines are raw payloads and the solvers are built through
+//! `MaxFlow::from_generic_edge_list` with capacity closure number k (`gen_cap`).
 use tbx_harness::*;
 use toolbox_rs::dinic::Dinic;
 use toolbox_rs::edge::InputEdge;
@@ -31,8 +33,97 @@ pub fn case_from(family: &str, s: usize, t: usize, edges: &[E]) -> Case {
     c
 }
 
+/// a case whose solvers are built with `from_generic_edge_list` and closure `k`; `edges` carry payloads
+pub fn case_from_gen(family: &str, k: usize, s: usize, t: usize, edges: &[E]) -> Case {
+    let mut edges = edges.to_vec();
+    let n = num_nodes(&edges);
+    if s >= n || t >= n {
+        edges.push((t, s, 0));
+    }
+    let mut c = Case::new(family);
+    c.op(format!("st {s} {t}"));
+    c.op(format!("gen {k}"));
+    for (u, v, w) in &edges {
+        c.op(format!("e {u} {v} {w}"));
+    }
+    c
+}
+
 fn num_nodes(edges: &[E]) -> usize {
     edges.iter().map(|e| e.0.max(e.1)).max().map(|m| m + 1).unwrap_or(0)
+}
+
+pub const IMAX: i64 = i32::MAX as i64;
+
+/// capacity closures handed to `from_generic_edge_list` (mirrored by `Tbx.Flow.genCap`)
+pub fn gen_cap(k: usize, payload: i32) -> i32 {
+    const TABLE: [i32; 5] = [3, 0, 5, 1, 2];
+    match k {
+        0 => 1,
+        1 => payload + 1,
+        2 => payload.abs(),
+        _ => TABLE[payload.rem_euclid(5) as usize],
+    }
+}
+
+/// reference maximum flow (BFS augmenting paths on a dense i64 matrix; polynomial whatever the capacities)
+pub fn ref_max_flow(n: usize, edges: &[E], s: usize, t: usize) -> i64 {
+    let mut r = vec![vec![0i64; n]; n];
+    for (u, v, c) in edges {
+        if u != v {
+            r[*u][*v] += *c as i64;
+        }
+    }
+    let mut flow = 0i64;
+    loop {
+        let mut par = vec![usize::MAX; n];
+        par[s] = s;
+        let mut q = std::collections::VecDeque::new();
+        q.push_back(s);
+        while let Some(u) = q.pop_front() {
+            for v in 0..n {
+                if par[v] == usize::MAX && r[u][v] > 0 {
+                    par[v] = u;
+                    q.push_back(v);
+                }
+            }
+        }
+        if par[t] == usize::MAX {
+            return flow;
+        }
+        let mut b = i64::MAX;
+        let mut v = t;
+        while v != s {
+            b = b.min(r[par[v]][v]);
+            v = par[v];
+        }
+        let mut v = t;
+        while v != s {
+            r[par[v]][v] -= b;
+            r[v][par[v]] += b;
+            v = par[v];
+        }
+        flow += b;
+    }
+}
+
+/// the domain in which the solvers' i32 arithmetic cannot overflow: merged capacities of every node pair
+/// (both directions together: what `dedup +=` and `rev += flow` can reach) and the maximum flow value
+/// (what `max_flow += path_flow` reaches) fit i32; capacities are non-negative; s != t are nodes
+pub fn in_domain(edges: &[E], s: usize, t: usize) -> bool {
+    let n = num_nodes(edges);
+    if edges.is_empty() || s == t || s >= n || t >= n || edges.iter().any(|e| e.2 < 0) {
+        return false;
+    }
+    let mut pair: std::collections::HashMap<(usize, usize), i64> = std::collections::HashMap::new();
+    for (u, v, c) in edges {
+        let key = if u <= v { (*u, *v) } else { (*v, *u) };
+        *pair.entry(key).or_insert(0) += *c as i64;
+    }
+    if pair.values().any(|x| *x > IMAX) {
+        return false;
+    }
+    ref_max_flow(n, edges, s, t) <= IMAX
 }
 
 /// all multisets of `k` edge types (indices non-decreasing)
@@ -242,6 +333,153 @@ fn layered(rng: &mut Rng) -> (usize, usize, Vec<E>) {
     permute(rng, sink + 1, 0, sink, &edges)
 }
 
+const HUGE: [i32; 7] = [i32::MAX, i32::MAX - 1, 1 << 30, (1 << 30) - 1, i32::MAX - 10, i32::MAX / 2, i32::MAX / 2 + 1];
+
+/// few-edge graphs with capacities near i32::MAX on source out-edges / sink in-edges / middle edges and
+/// small bottlenecks elsewhere; the sum of all capacities (and of the source's out-capacities) may exceed
+/// i32::MAX by far.  Only cases inside `in_domain` whose flow value is small (or whose shape needs a single
+/// augmentation per path) are emitted, so that the augmenting-path solvers stay fast.
+fn huge_cases(rng: &mut Rng, count: usize, cases: &mut Vec<Case>) {
+    let m = i32::MAX;
+    // fixed shapes
+    let fixed: Vec<(usize, usize, Vec<E>)> = vec![
+        (0, 2, vec![(0, 1, m), (1, 2, 9), (0, 2, 1)]),
+        (0, 2, vec![(0, 1, m), (1, 2, m)]),
+        (0, 2, vec![(0, 1, m), (1, 2, m - 1)]),
+        (0, 3, vec![(0, 1, m), (1, 2, m), (2, 3, m)]),
+        (0, 3, vec![(0, 1, 1 << 30), (1, 3, 1 << 30), (0, 2, (1 << 30) - 1), (2, 3, (1 << 30) - 1)]),
+        (0, 2, vec![(0, 1, 1 << 30), (0, 1, (1 << 30) - 1), (1, 2, 5)]),
+        (0, 2, vec![(0, 1, 1 << 30), (0, 1, (1 << 30) - 1), (1, 2, m)]),
+        (0, 3, vec![(0, 1, m), (0, 2, m), (1, 3, 4), (2, 3, 7), (1, 2, m)]),
+        (0, 3, vec![(0, 1, 3), (0, 2, 8), (1, 3, m), (2, 3, m)]),
+        (0, 3, vec![(0, 1, 5), (1, 2, m), (2, 3, 6), (2, 1, 0)]),
+        (0, 1, vec![(0, 1, m)]),
+        (0, 1, vec![(0, 1, m - 1), (1, 0, 1)]),
+        (0, 1, vec![(0, 1, m), (1, 1, m), (0, 0, m)]),
+    ];
+    for (s, t, es) in &fixed {
+        if in_domain(es, *s, *t) {
+            cases.push(case_from("huge-capacities", *s, *t, es));
+            let n = num_nodes(es);
+            let (ps, pt, pes) = permute(rng, n, *s, *t, es);
+            if in_domain(&pes, ps, pt) {
+                cases.push(case_from("huge-capacities", ps, pt, &pes));
+            }
+        }
+    }
+    let mut made = 0;
+    let mut guard = 0;
+    while made < count && guard < count * 50 {
+        guard += 1;
+        let n = 3 + rng.below(4) as usize;
+        let sink = n - 1;
+        let mut es: Vec<E> = Vec::new();
+        let shape = rng.below(4);
+        let small = |rng: &mut Rng| rng.range(0, 9) as i32;
+        let huge = |rng: &mut Rng| *rng.pick(&HUGE);
+        match shape {
+            0 => {
+                // huge source fan, small way out
+                for a in 1..sink {
+                    es.push((0, a, huge(rng)));
+                    es.push((a, sink, small(rng)));
+                }
+                if rng.chance(1, 2) {
+                    es.push((0, sink, small(rng)));
+                }
+            }
+            1 => {
+                // small way in, huge sink fan-in
+                for a in 1..sink {
+                    es.push((0, a, small(rng)));
+                    es.push((a, sink, huge(rng)));
+                }
+            }
+            2 => {
+                // huge middle edges between small ends
+                for a in 1..sink {
+                    es.push((0, a, small(rng)));
+                }
+                for a in 1..sink {
+                    for b in 1..sink {
+                        if a != b && rng.chance(1, 2) {
+                            es.push((a, b, huge(rng)));
+                        }
+                    }
+                }
+                for a in 1..sink {
+                    es.push((a, sink, small(rng)));
+                }
+            }
+            _ => {
+                // anything goes
+                let m_edges = 2 + rng.below(7) as usize;
+                for _ in 0..m_edges {
+                    let u = rng.below(n as u64) as usize;
+                    let v = rng.below(n as u64) as usize;
+                    let c = if rng.chance(1, 3) { huge(rng) } else { small(rng) };
+                    es.push((u, v, c));
+                }
+            }
+        }
+        // noise: a few small extra edges
+        for _ in 0..rng.below(3) {
+            let u = rng.below(n as u64) as usize;
+            let v = rng.below(n as u64) as usize;
+            es.push((u, v, small(rng)));
+        }
+        if es.is_empty() {
+            continue;
+        }
+        let (s, t, es) = permute(rng, n, 0, sink, &es);
+        let es = in_range(s, t, es);
+        if !in_domain(&es, s, t) {
+            continue;
+        }
+        if ref_max_flow(num_nodes(&es), &es, s, t) > 20000 {
+            continue;
+        }
+        cases.push(case_from("huge-capacities", s, t, &es));
+        made += 1;
+    }
+}
+
+/// solvers built through `from_generic_edge_list` with a capacity closure that is not the identity;
+/// payloads include 0 and negative numbers
+fn generic_cases(rng: &mut Rng, count: usize, cases: &mut Vec<Case>) {
+    // payloads 0 / negative on the only path: a constructor that looked at the payload would lose it
+    cases.push(case_from_gen("generic-constructor", 0, 0, 2, &[(0, 1, 0), (1, 2, -3)]));
+    cases.push(case_from_gen("generic-constructor", 1, 0, 2, &[(0, 1, 0), (1, 2, 4), (0, 2, -1)]));
+    cases.push(case_from_gen("generic-constructor", 2, 0, 2, &[(0, 1, -7), (1, 2, -2), (0, 2, 0)]));
+    cases.push(case_from_gen("generic-constructor", 3, 0, 2, &[(0, 1, -5), (1, 2, 0), (0, 2, -3)]));
+    for i in 0..count {
+        let k = i % 4;
+        let n = 2 + rng.below(6) as usize;
+        let m = 1 + rng.below(14) as usize;
+        let mut es: Vec<E> = Vec::new();
+        for _ in 0..m {
+            let u = rng.below(n as u64) as usize;
+            let v = rng.below(n as u64) as usize;
+            let p = match k {
+                1 => rng.range(-1, 8) as i32,
+                _ => rng.range(-6, 8) as i32,
+            };
+            es.push((u, v, p));
+        }
+        let nn = num_nodes(&es);
+        if nn < 2 {
+            es.push((0, 1, 0));
+        }
+        let nn = num_nodes(&es);
+        let s = rng.below(nn as u64) as usize;
+        let mut t = rng.below(nn as u64) as usize;
+        if t == s {
+            t = (s + 1) % nn;
+        }
+        cases.push(case_from_gen("generic-constructor", k, s, t, &es));
+    }
+}
+
 pub const D1_WITNESS: [E; 6] = [(0, 1, 10), (1, 2, 10), (1, 3, 10), (1, 4, 3), (2, 4, 10), (3, 4, 10)];
 
 pub fn generate(rng: &mut Rng, tier: Tier, cases: &mut Vec<Case>) {
@@ -312,21 +550,31 @@ pub fn generate(rng: &mut Rng, tier: Tier, cases: &mut Vec<Case>) {
         let (s, t, es) = layered(rng);
         cases.push(case_from("layered", s, t, &es));
     }
+    // (v) capacities near i32::MAX inside the precise no-overflow domain
+    let (n_huge, n_generic) = match tier {
+        Tier::Quick => (3000, 3000),
+        Tier::Thorough => (40000, 40000),
+    };
+    huge_cases(rng, n_huge, cases);
+    // (vi) the generic constructor with non-identity capacity closures
+    generic_cases(rng, n_generic, cases);
 }
 
-fn parse(c: &Case) -> Option<(usize, usize, Vec<E>)> {
+fn parse(c: &Case) -> Option<(usize, usize, Option<usize>, Vec<E>)> {
     let mut st = None;
+    let mut generic = None;
     let mut edges = Vec::new();
     for l in &c.ops {
         let t: Vec<&str> = l.split_whitespace().collect();
         match t.first().copied() {
             Some("st") if t.len() == 3 => st = Some((t[1].parse().ok()?, t[2].parse().ok()?)),
+            Some("gen") if t.len() == 2 => generic = Some(t[1].parse().ok()?),
             Some("e") if t.len() == 4 => edges.push((t[1].parse().ok()?, t[2].parse().ok()?, t[3].parse().ok()?)),
             _ => return None,
         }
     }
     let (s, t) = st?;
-    Some((s, t, edges))
+    Some((s, t, generic, edges))
 }
 
 fn bits(b: &bitvec::vec::BitVec) -> String {
@@ -344,12 +592,22 @@ fn observe<S: MaxFlow>(
     t: usize,
     with_pre: bool,
     with_assign: bool,
+    generic: Option<usize>,
     residual: impl Fn(&S) -> Vec<(usize, usize, i32)>,
     obs: &mut Vec<String>,
 ) {
-    let list: Vec<InputEdge<ResidualEdgeData>> =
-        edges.iter().map(|(u, v, c)| InputEdge::new(*u, *v, ResidualEdgeData::new(*c))).collect();
-    let mut solver = S::from_edge_list(list, s, t);
+    let mut solver = match generic {
+        None => {
+            let list: Vec<InputEdge<ResidualEdgeData>> =
+                edges.iter().map(|(u, v, c)| InputEdge::new(*u, *v, ResidualEdgeData::new(*c))).collect();
+            S::from_edge_list(list, s, t)
+        }
+        Some(k) => {
+            // raw payload edges and a capacity closure, as chipper does
+            let raw: Vec<InputEdge<i32>> = edges.iter().map(|(u, v, p)| InputEdge::new(*u, *v, *p)).collect();
+            S::from_generic_edge_list(&raw, s, t, |e| ResidualEdgeData::new(gen_cap(k, e.data)))
+        }
+    };
     if with_pre {
         let a = match solver.max_flow() {
             Ok(x) => x.to_string(),
@@ -378,14 +636,23 @@ fn observe<S: MaxFlow>(
 /// runs the three real solvers; out-of-domain cases (only produced by shrinking) are not executed,
 /// the driver answers `J skip` for them from the ops alone
 pub fn execute(c: &Case, obs: &mut Vec<String>, with_pre: bool, with_assign: bool) {
-    let Some((s, t, edges)) = parse(c) else { return };
-    let n = num_nodes(&edges);
-    let total: i64 = edges.iter().map(|e| e.2 as i64).sum();
-    if edges.is_empty() || s == t || s >= n || t >= n || edges.iter().any(|e| e.2 < 0) || total >= i32::MAX as i64 {
+    let Some((s, t, generic, edges)) = parse(c) else { return };
+    // the capacities the solvers are supposed to work with
+    let caps: Vec<E> = match generic {
+        None => edges.clone(),
+        Some(k) => {
+            if k > 3 || edges.iter().any(|e| e.2.checked_add(1).is_none() || e.2 == i32::MIN) {
+                obs.push("D out-of-domain".to_string());
+                return;
+            }
+            edges.iter().map(|(u, v, p)| (*u, *v, gen_cap(k, *p))).collect()
+        }
+    };
+    if !in_domain(&caps, s, t) {
         obs.push("D out-of-domain".to_string());
         return;
     }
-    observe::<Dinic>("dinic", &edges, s, t, with_pre, with_assign, |x| x.verif_residual(), obs);
-    observe::<EdmondsKarp>("ek", &edges, s, t, with_pre, with_assign, |x| x.verif_residual(), obs);
-    observe::<FordFulkerson>("ff", &edges, s, t, with_pre, with_assign, |x| x.verif_residual(), obs);
+    observe::<Dinic>("dinic", &edges, s, t, with_pre, with_assign, generic, |x| x.verif_residual(), obs);
+    observe::<EdmondsKarp>("ek", &edges, s, t, with_pre, with_assign, generic, |x| x.verif_residual(), obs);
+    observe::<FordFulkerson>("ff", &edges, s, t, with_pre, with_assign, generic, |x| x.verif_residual(), obs);
 }
